@@ -347,9 +347,7 @@ pub fn run_case(case: &RealCase, tokio_seed: u64) -> RealObs {
                 _ => url = format!("ldap://127.0.0.1:{port}"),
             }
             if matches!(transport, Transport::Ldaps | Transport::StartTls | Transport::StartTlsPre) {
-                let ca = native_tls::Certificate::from_pem(&pki().ca_pem).expect("ca");
-                let conn = native_tls::TlsConnector::builder().add_root_certificate(ca).build().expect("connector");
-                settings = settings.set_connector(conn);
+                settings = crate::estab::trust_harness_ca(settings);
             }
             if let Some(s) = pre {
                 settings = settings.set_std_stream(ldap3::StdStream::Tcp(s));
